@@ -72,8 +72,9 @@ type Step struct {
 	Op int `json:"op,omitempty"`
 
 	// block
-	N  int   `json:"n,omitempty"`  // number of blocks (>=1)
-	Dt int64 `json:"dt,omitempty"` // seconds to the next block (0: 5..7)
+	N   int   `json:"n,omitempty"`   // number of blocks (>=1)
+	Dt  int64 `json:"dt,omitempty"`  // seconds to the next block (0: 5..7)
+	Age int64 `json:"age,omitempty"` // block: the next block comes when feed F's newest value is exactly Age seconds old
 
 	// fund
 	Amt int64 `json:"amt,omitempty"`
@@ -374,7 +375,12 @@ func gen(r *lib.Rand, tier, stream string, idx int) History {
 			if r.Chance(1, 2) {
 				dt = r.Range(280, 305)
 			}
-			h.Steps = append(h.Steps, Step{K: "block", N: 1, Dt: dt}, Step{K: "price", F: f})
+			blk := Step{K: "block", N: 1, Dt: dt}
+			if r.Chance(1, 3) {
+				// the boundary itself: expired means strictly more than 300 s
+				blk = Step{K: "block", F: f, N: 1, Age: []int64{299, 300, 300, 301}[r.Intn(4)]}
+			}
+			h.Steps = append(h.Steps, blk, Step{K: "price", F: f})
 		}
 	}
 	return h
@@ -1061,6 +1067,14 @@ func (rn *runner) exec() lib.Case {
 				dt := time.Duration(5+e.Height%3) * time.Second
 				if st.Dt > 0 {
 					dt = time.Duration(st.Dt) * time.Second
+				}
+				if st.Age > 0 {
+					if resp, err := rn.ok.FeedValue(e.Ctx, &oracletypes.QueryFeedValueRequest{FeedName: feedName(st.F)}); err == nil && len(resp.FeedValues) > 0 {
+						if d := resp.FeedValues[0].Timestamp.Unix() + st.Age - e.Time.Unix(); d > 0 {
+							dt = time.Duration(d) * time.Second
+							lib.Stat(rn.stats, fmt.Sprintf("price:age-%d", st.Age))
+						}
+					}
 				}
 				e.BeginBlock(dt)
 			}
